@@ -115,6 +115,17 @@ func genValues(rng *rand.Rand, idx int, tier string) Case {
 		}
 		addNumeric(rng, s, v)
 		c["schema"] = s
+		if t, typed := s["type"].(string); typed && rng.Intn(4) == 0 && (t == "number" || v == math.Trunc(v)) {
+			// the number arrives as a json.Number (decoder with UseNumber): schema.go reads it with Int64() under a declared
+			// integer type (a literal that does not parse is a conversion error: not generated) and with Float64() under
+			// number — that is the carrier the model is told
+			c["carrier"] = "jsonnumber"
+			if t == "integer" && v == math.Trunc(v) && math.Abs(v) < 9.3e18 {
+				c["kind"] = "int64"
+			} else {
+				c["kind"] = "float64"
+			}
+		}
 	default:
 		c["op"] = "param"
 		s := map[string]interface{}{"name": "p", "in": "query"}
@@ -247,6 +258,9 @@ func runValues(c Case) interface{} {
 		}
 	case "schema":
 		sb, _ := json.Marshal(c["schema"])
+		if asStr(c["carrier"]) == "jsonnumber" {
+			v = json.Number(strconv.FormatFloat(num(c["val"]), 'f', -1, 64))
+		}
 		err := validate.AgainstSchema(parseSchemaJSON(sb), v, strfmt.Default)
 		out["valid"] = err == nil
 		if err != nil {
